@@ -266,6 +266,35 @@ class G:
         self.kinds.append(kind)
         return out.name
 
+    def mul_max(self, x, style=None):
+        """MAXIMUM(x, MUL(x, scalar constant)) with one quantisation throughout: the compiler's pattern for LeakyReLU (slope >= 0) / ABS (slope -1);
+        the reference is the MUL and MAXIMUM kernels themselves"""
+        r = self.rng
+        X = self.T(x)
+        lo, hi = DT_RANGE[X.dtype.name]
+        style = int(r.integers(0, 4)) if style is None else style
+        if style == 0:  # slope stored in the usual asymmetric way: [0, alpha] -> zero point at the bottom, code at the top
+            alpha = float(r.choice([0.1, 0.2, 0.01, 0.3, float(r.uniform(0.01, 0.9))]))
+            kscale, kzp, code = alpha / 255.0, lo, hi
+        elif style == 1:  # symmetric: zero point 0 (int8) / 128 (uint8)
+            alpha = float(r.uniform(0.01, 0.9))
+            kzp = (lo + hi + 1) // 2
+            code = int(r.integers(kzp + 20, hi + 1))
+            kscale = alpha / (code - kzp)
+        elif style == 2:  # any zero point, positive slope; the code -1 (which alone says nothing about the slope) often
+            kzp = int(r.integers(lo, hi - 40))
+            code = int(r.integers(kzp + 10, hi + 1))
+            if lo < 0 and kzp < -12 and r.integers(0, 3) == 0:
+                code = -1
+            kscale = float(r.uniform(0.01, 0.9)) / (code - kzp)
+        else:  # slope -1 (ABS) and other negative slopes (no rewrite)
+            kzp = int(r.integers(lo + 40, hi + 1))
+            code = int(r.integers(lo, kzp - 10))
+            kscale = (1.0 if r.integers(0, 2) else float(r.uniform(0.1, 0.9))) / (kzp - code)
+        k = self.const(self.name("slope"), [], X.dtype.name, np.array(code), [float(np.float32(kscale))], [kzp])
+        m = self.eltwise("mul", *((x, k.name) if r.integers(0, 2) else (k.name, x)), oscale=X.scale[0], ozp=X.zp[0])
+        return self.eltwise("max", *((x, m) if r.integers(0, 2) else (m, x)), oscale=X.scale[0], ozp=X.zp[0])
+
     def const_act(self, shape, dtype=None, scale=None, zp=None):
         dtype = dtype or self.dtype
         lo, hi = DT_RANGE[dtype]
@@ -273,13 +302,14 @@ class G:
         t = self.const(nm, shape, dtype, self.rng.integers(lo, hi + 1, shape), [scale or self.rscale()], [zp if zp is not None else self.rzp(dtype)])
         return t.name
 
-    def unary(self, kind, x, oscale=None, ozp=None, alpha=None):
+    def unary(self, kind, x, oscale=None, ozp=None, alpha=None, free_q=False):
+        """free_q: keep the given output quantisation for LOGISTIC / TANH (the reference kernels fix it; the table generator accepts any)"""
         X = self.T(x)
         nm = self.name(kind)
         lo, hi = DT_RANGE[X.dtype.name]
-        if kind == "logistic":
+        if kind == "logistic" and not free_q:
             oscale, ozp = (1 / 256.0, lo) if X.dtype.name != "int16" else (1 / 32768.0, 0)
-        elif kind == "tanh":
+        elif kind == "tanh" and not free_q:
             oscale, ozp = (1 / 128.0, (lo + hi + 1) // 2) if X.dtype.name != "int16" else (1 / 32768.0, 0)
         elif kind in ("relu", "relu6", "relu_n1_to_1", "abs") and oscale is None:
             oscale, ozp = X.scale[0], X.zp[0]
@@ -650,7 +680,7 @@ def fam_exact_dag(seed):
     return g.finish(outs, "exact-dag", "exact")
 
 
-APPROX_TAILS = ["avgpool_pad", "avgpool", "resize_bilinear", "resize_nearest", "logistic", "tanh", "leaky_relu", "hard_swish", "mean", "softmax", "concat_requant"]
+APPROX_TAILS = ["avgpool_pad", "avgpool", "resize_bilinear", "resize_nearest", "logistic", "tanh", "leaky_relu", "hard_swish", "mean", "softmax", "concat_requant", "mul_max"]
 
 
 def fam_approx_tail(seed, tail=None):
@@ -696,6 +726,8 @@ def fam_approx_tail(seed, tail=None):
         if ax != 3:
             z = g.conv(x, g.T(y).shape[3], 1, 1, PAD_SAME, 0)
         x = g.concat([y, z] if r.integers(0, 2) else [z, y], ax, same_q=False, oscale=g.rscale(0.01, 0.1), ozp=g.rzp())
+    elif tail == "mul_max":
+        x = g.mul_max(x)
     elif tail == "mean":
         x = g.mean(x, (1, 2), bool(r.integers(0, 2)))
     elif tail == "softmax":
